@@ -29,13 +29,13 @@ def queries(tier):
     qs.append(Query(name="enc_m_reject_then_accept", harness="C14/enc_api.c", entry="m_reject_then_accept",
                     funcs=[H + "svt_av1_enc_set_parameter", H + "copy_api_from_app", H + "verify_settings", H + "set_param_based_on_input",
                            H + "load_default_buffer_configuration_settings"],
-                    unwindset=["vin_fill.0:2200"], unwind=40, defines=["VIN_MAX=4096"],
+                    unwindset=["vin_fill.0:2200"], unwind=6, defines=["SCS_STATIC=1"],
                     bound="set_parameter(arbitrary 1.8 kB configuration) then set_parameter(defaults + size 64..264 even)",
                     what="a rejected configuration leaves the handle usable; no call blocks on the configuration mutex", timeout=900,
                     checks=["--unwinding-assertions", "--drop-unused-functions", "--no-standard-checks"]))
     qs.append(Query(name="enc_s_validate_arbitrary_config", harness="C14/enc_api.c", entry="s_validate_arbitrary_config",
                     funcs=[H + "copy_api_from_app", H + "verify_settings", H + "set_default_configuration_parameters"],
-                    unwindset=["vin_fill.0:2200"], unwind=40,
+                    unwindset=["vin_fill.0:2200"], unwind=6, defines=["SCS_STATIC=1"],
                     bound="all 2^(8*sizeof(EbSvtAv1EncConfiguration)) configurations; manual prediction structure loops unwound 40",
                     what="validating any configuration (valid or not) performs no out-of-bounds access / undefined arithmetic", timeout=900))
     return qs
